@@ -53,3 +53,12 @@ Theorem C13_conv_meaning : forall xs y lo hi, Conv xs y ->
   Forall (fun x => lo <= x <= hi) xs -> lo <= y <= hi.
 Proof. exact Conv_hull. Qed.
 Print Assumptions C13_conv_meaning.
+
+(* ---- the generic (float / integer) model of the bit-exact stream, instantiated at the rationals, is the model above ---- *)
+From Signalo Require Base.Arith Model.Generic Proofs.Generic.
+Theorem C13_generic_ema : forall w s x, Signalo.Model.Generic.g_ema_step Signalo.Base.Arith.Qar w s x = Signalo.Model.Smooth.ema_step w s x.
+Proof. exact Signalo.Proofs.Generic.gq_ema. Qed.
+Print Assumptions C13_generic_ema.
+Theorem C13_generic_xm : forall c s x, (let '(s', y) := Signalo.Model.Generic.g_xm_step Signalo.Base.Arith.Qar (Signalo.Model.Smooth.xpre c) (Signalo.Model.Smooth.xmid c) (Signalo.Model.Smooth.xpost c) s x in (Signalo.Proofs.Generic.xm_of s', y)) = Signalo.Model.Smooth.xm_step c (Signalo.Proofs.Generic.xm_of s) x.
+Proof. exact Signalo.Proofs.Generic.gq_xm. Qed.
+Print Assumptions C13_generic_xm.
